@@ -156,6 +156,7 @@ def main():
             needs_to_manifest=needs,
             origin='written by an independent sub-agent that was given only the '
                    'property text and a scratch worktree of /repo (nothing from /verif)',
+            verif_commit=e.get('verif_commit', '0882c02'),
             confirmed=dict(
                 base_commit=e.get('base_commit'),
                 builds=st.get('build_mutant') == 0,
